@@ -56,7 +56,7 @@ print('confirmed:', confirmed, [r['summary'] for r in ran])
 results = {}
 ISO = os.environ.get('SEED_ISOLATED') == '1'
 if confirmed and CHECK and ISO:
-    SV, SR = '/tmp/seedverif', '/tmp/seedrepo'
+    SV, SR = '/tmp/seedverif' + os.environ.get('SEED_ISO_TAG', ''), '/tmp/seedrepo' + os.environ.get('SEED_ISO_TAG', '')
     sh('mkdir -p %s && rsync -a --delete --exclude .git --exclude replays --exclude seeded /verif/ %s/' % (SV, SV))
     if not os.path.exists(SR):
         rc, o = sh('git -C /repo worktree add --detach %s HEAD' % SR)
